@@ -350,6 +350,12 @@ fn run_one(args: &[String]) {
 pub const API_TAGS: [[u8; 4]; 7] = [*b"isol", *b"fina", *b"fin2", *b"fin3", *b"medi", *b"med2", *b"init"];
 
 fn api_font() -> Vec<u8> {
+    api_font_scripts(&[*b"DFLT", *b"arab", *b"syrc"])
+}
+
+/// The same font with its features registered under the given script records only.  Arabic text keeps the joining shaper
+/// when the font has no `arab` record and its positional features sit under `DFLT` (Syriac text does not: not used there).
+fn api_font_scripts(scripts: &[[u8; 4]]) -> Vec<u8> {
     use crate::fontgen::*;
     let mut spec = FontSpec::basic(9 + 56);
     let mut cmap: Vec<(u32, u16)> = REPS.iter().enumerate().map(|(i, (c, _))| (*c as u32, 1 + i as u16)).collect();
@@ -368,7 +374,7 @@ fn api_font() -> Vec<u8> {
     feats.sort();
     let mut layout = Layout::with_features(feats, lookups);
     let all = LangSys { required_feature: None, feature_indices: (0..7).collect() };
-    layout.scripts = [*b"DFLT", *b"arab", *b"syrc"]
+    layout.scripts = scripts
         .iter()
         .map(|t| ScriptRecord { tag: *t, default_langsys: Some(all.clone()), langsys: Vec::new() })
         .collect();
@@ -533,6 +539,7 @@ fn api(args: &[String]) {
     let chunk = arg_u64(args, "--chunk", 32768).max(20);
     let sname = arg_str(args, "--script").unwrap_or("syrc").to_string();
     let bytes = std::sync::Arc::new(api_font());
+    let bytes_dflt = std::sync::Arc::new(api_font_scripts(&[*b"DFLT"]));
     if rustybuzz::Face::from_slice(&bytes, 0).is_none() {
         println!("anomaly generated font rejected");
         return;
@@ -561,8 +568,11 @@ fn api(args: &[String]) {
     let mut hs = Vec::new();
     for _ in 0..nthreads {
         let (jobs, next, results, bytes, sname) = (jobs.clone(), next.clone(), results.clone(), bytes.clone(), sname.clone());
+        let bytes_dflt = bytes_dflt.clone();
         hs.push(std::thread::spawn(move || {
-            let face = rustybuzz::Face::from_slice(&bytes, 0).unwrap();
+            let face_all = rustybuzz::Face::from_slice(&bytes, 0).unwrap();
+            let face_dflt = rustybuzz::Face::from_slice(&bytes_dflt, 0).unwrap();
+            let dflt_ok = sname == "arab";
             let script = script_of(&sname);
             let mut recycled: Option<rustybuzz::UnicodeBuffer> = None;
             loop {
@@ -578,7 +588,9 @@ fn api(args: &[String]) {
                 for idx in start..start + count {
                     let t = seq_of(n, idx);
                     let variant = if p.is_empty() && idx % 4 == 3 { 3 } else { (idx + n as u64 + pre as u64 + post as u64) % 3 };
-                    let r = std::panic::catch_unwind(std::panic::AssertUnwindSafe(|| api_forms_v(&face, script, &p, &t, &q, variant, &mut recycled)));
+                    // every fifth Arabic case on the font that registers its features under DFLT only
+                    let face = if dflt_ok && idx % 5 == 4 { &face_dflt } else { &face_all };
+                    let r = std::panic::catch_unwind(std::panic::AssertUnwindSafe(|| api_forms_v(face, script, &p, &t, &q, variant, &mut recycled)));
                     let forms = match r {
                         Ok(Ok(f)) => f,
                         Ok(Err(e)) => {
